@@ -319,6 +319,8 @@ impl Config {
 
     /// Sets the mode for (de)serialization. This is a low-level method that you won't need directly.
     pub(crate) fn set_serialize_mode(&self, mode: SerializeMode) {
+        #[cfg(stam_verif)]
+        crate::verif_hooks::yield_point("config.set_serialize_mode");
         if let Ok(mut serialize_mode) = self.serialize_mode.write() {
             *serialize_mode = mode;
         }
@@ -326,6 +328,8 @@ impl Config {
 
     /// Gets the mode for (de)serialization. This is a low-level method that you won't need directly.
     pub(crate) fn serialize_mode(&self) -> SerializeMode {
+        #[cfg(stam_verif)]
+        crate::verif_hooks::yield_point("config.serialize_mode");
         if let Ok(serialize_mode) = self.serialize_mode.read() {
             *serialize_mode
         } else {
